@@ -958,10 +958,10 @@ func c18CloseRun(c string) string {
 	m := kv(c)
 	ops := c18List(m["ops"])
 	if m["auto"] == "1" {
-		return c18Retry(func() string { return c18RunAuto(m, ops) })
+		return c18Retry(func() string { return c18NoGC(func() string { return c18RunAuto(m, ops) }) })
 	}
 	if m["stall"] == "1" {
-		return c18Retry(func() string { return c18RunStall(m, ops) })
+		return c18Retry(func() string { return c18NoGC(func() string { return c18RunStall(m, ops) }) })
 	}
 	withTimer := false
 	for _, op := range ops {
